@@ -86,6 +86,12 @@ def pax_index_rule(chk, prog):
                 for x in backward_slice(ix, phi_control=False):
                     if x.is_inst and x.op == "call" and norm_callee(x.callee) in ("strtol", "strtoul", "strtoll", "atoi"):
                         src = x
+                    elif x.is_inst and x.op == "load" and strip_casts(x.ops[0]).is_inst and strip_casts(x.ops[0]).op == "alloca":
+                        # a number a parsing function delivered through an out-parameter (parse_uint(..., &value))
+                        al = strip_casts(x.ops[0])
+                        if any(u.op == "call" and (norm_callee(u.callee) or "").startswith(("parse_", "read_number", "strto"))
+                               for u in f.uses.get(al, [])):
+                            src = x
             if src is None:
                 continue
             n += 1
@@ -114,12 +120,12 @@ def pax_index_rule(chk, prog):
                             upper = True
             inst = "%s:store@%d" % (f.name, i.line)
             if upper and lower:
-                chk.ok("K6-index", inst, i, "the record length from strtol is > 0 and <= the remaining buffer before it is used as an index")
+                chk.ok("K6-index", inst, i, "the parsed record length is > 0 and <= the remaining buffer (a difference, not a pointer sum) before it is used as an index")
             else:
-                chk.violation("K6-index", inst, i, "a record length parsed with strtol is used as a store index without %s bound: "
+                chk.violation("K6-index", inst, i, "a record length parsed from the archive is used as a store index without %s bound (a comparison of `start + length` with the end does not count: the sum wraps): "
                               "a crafted PAX record writes outside the record buffer" % ("an upper" if not upper else "a lower"))
     if n == 0:
-        chk.broke("no strtol-derived store index found in pax_header.c")
+        chk.broke("no store indexed by a parsed number found in pax_header.c")
 
 
 def validation_rule(chk, prog):
@@ -231,9 +237,14 @@ def mask_rule(chk, prog):
 
 
 def cleanup_rule(chk):
-    """C07-e is decided by the C13 check (K1-cleanup / K1-status); here only that both packers are covered"""
-    chk.note("no-output-file-after-failure (C07-e) and entry-name canonicalisation (C07-f) are decided by the C13 "
-             "(K1-cleanup, K1-status) and C18 (K1-funnel, K5-funnel) checks")
+    """C07-e "a failing run leaves no output file": the K1-cleanup rules of C13 (the output is unlinked whenever the
+    status is not success, every function that fails after creating it removes it, the working directory is the one
+    the output name is relative to when the cleanup runs), run here for both packers"""
+    from .c13 import rule_cleanup
+    for tool in ("gensquashfs", "tar2sqfs"):
+        rule_cleanup(chk, load_program(tool), tool)
+    chk.floor("K1-cleanup", 4)
+    chk.note("entry-name canonicalisation (C07-f) is decided by the C18 check (K1-funnel, K5-funnel)")
 
 
 def _second_pointer_kind(f, h, body, a, b2):
